@@ -68,6 +68,29 @@ static void do_reg(int k, int on) {
   if (on) rfbRegisterSecurityHandler(&exth[k - 2]); else rfbUnregisterSecurityHandler(&exth[k - 2]);
 }
 
+/* a custom passwordCheck callback (not one of the two built-in ones): response = challenge xor 0x5a */
+static rfbBool xor_check(rfbClientPtr cl, const char *response, int len) {
+  int i; for (i = 0; i < len; i++) if ((unsigned char)response[i] != (cl->authChallenge[i] ^ 0x5a)) return FALSE;
+  return TRUE;
+}
+/* "encfail 1": the DES backend fails from now on (gcry_cipher_setkey refuses every key) */
+#include <gcrypt.h>
+static int enc_fail = 0;
+gcry_error_t __real_gcry_cipher_setkey(gcry_cipher_hd_t h, const void *k, size_t l);
+gcry_error_t __wrap_gcry_cipher_setkey(gcry_cipher_hd_t h, const void *k, size_t l) {
+  if (enc_fail) return gcry_error(GPG_ERR_INV_KEYLEN);
+  return __real_gcry_cipher_setkey(h, k, l);
+}
+static size_t unhex(const char *s, unsigned char *out, size_t cap);
+static char **make_list(char **tok, int np) {
+  int i; char **list = (char **)calloc((size_t)np + 1, sizeof(char *));
+  for (i = 0; i < np; i++) {
+    unsigned char pw[64]; size_t pn = unhex(tok[i], pw, 63);
+    list[i] = (char *)malloc(pn + 1); memcpy(list[i], pw, pn); list[i][pn] = 0;
+  }
+  return list;
+}
+
 static int hexval(int c) { return c <= '9' ? c - '0' : (c | 32) - 'a' + 10; }
 static size_t unhex(const char *s, unsigned char *out, size_t cap) {
   size_t n = 0;
@@ -121,6 +144,8 @@ static void do_screen(char **tok, int nt) {
     s->authPasswdData = (void *)list;
     s->authPasswdFirstViewOnly = atoi(tok[5]);
     s->passwordCheck = rfbCheckPasswordByList;
+  } else if (!strcmp(tok[4], "custom")) {
+    s->authPasswdData = (void *)"custom"; s->passwordCheck = xor_check;
   } else if (!strcmp(tok[4], "file")) {
     unsigned char ct[64]; size_t cn = unhex(tok[5], ct, 64);
     char *fn = (char *)malloc(strlen(scratch) + 64);
@@ -213,6 +238,16 @@ static void run_case(char **lines, int nl) {
         sendto(u, b, n, 0, (struct sockaddr *)&a, sizeof a);
         { struct pollfd pf = { screens[s]->udpSock, POLLIN, 0 }; poll(&pf, 1, 200); }
         pump_screen(s);
+      }
+      obs();
+    }
+    else if (!strcmp(tok[0], "encfail") && nt == 2) { enc_fail = atoi(tok[1]); obs(); }
+    else if (!strcmp(tok[0], "setlist") && nt >= 3) {
+      /* the application replaces authPasswdData / authPasswdFirstViewOnly of a password-list screen */
+      int s = atoi(tok[1]);
+      if (s >= 0 && s < nscreens && screens[s]->passwordCheck == rfbCheckPasswordByList) {
+        screens[s]->authPasswdData = (void *)make_list(tok + 3, nt - 3);
+        screens[s]->authPasswdFirstViewOnly = atoi(tok[2]);
       }
       obs();
     }
